@@ -29,7 +29,7 @@ const (
 )
 
 type zzvFeatures struct {
-	ident, alias, local, ferr, stop, two, entity bool
+	ident, alias, local, ferr, stop, two, entity, dup bool
 }
 
 type zzvDag struct {
@@ -50,6 +50,8 @@ type zzvDag struct {
 	fk     [zzvMaxN]int8
 	etype  [zzvMaxN]uint8 // EntityType
 	tk     [zzvMaxN]int8
+	dupl   [zzvMaxN]bool // the node's first link is repeated at the end of its link list ([X, Y, X])
+	dk     [zzvMaxN]int8
 	rev    bool
 	stopAt int  // emit answers false at the stopAt-th emission (0 = never)
 	cancel bool // ... or, instead, cancels the walk's context there and answers true
@@ -109,6 +111,11 @@ func zzvNewDag(n int, f zzvFeatures) *zzvDag {
 			d.ferr[i] = verifrt.NondetBool("ferr")
 		} else {
 			d.fk[i] = 2
+		}
+		if f.dup {
+			d.dupl[i] = verifrt.NondetBool("dupLink")
+		} else {
+			d.dk[i] = 2
 		}
 		if f.entity {
 			t := verifrt.NondetU8("etype")
@@ -205,6 +212,9 @@ func (d *zzvDag) children(i int) []int {
 				ch = append(ch, d.ref(i, j))
 			}
 		}
+	}
+	if len(ch) > 0 && zzvBit(d.dupl[i], &d.dk[i]) {
+		ch = append(ch, ch[0])
 	}
 	return ch
 }
@@ -477,6 +487,7 @@ func zzvParamFeatures() zzvFeatures {
 		stop:   verifrt.Param("STOP", 0) != 0,
 		two:    verifrt.Param("TWO", 0) != 0,
 		entity: verifrt.Param("ENTITY", 0) != 0,
+		dup:    verifrt.Param("DUP", 0) != 0,
 	}
 }
 
@@ -945,3 +956,6 @@ func HarnessC13WalkAliases() { zzvRunWalk(verifrt.Param("N", 4), zzvParamFeature
 
 // HarnessC13WalkEnvIdent: the environment walk (locality, failing fetches, stopping emit, two walks) with identity nodes.
 func HarnessC13WalkEnvIdent() { zzvRunWalk(verifrt.Param("N", 3), zzvParamFeatures()) }
+
+// HarnessC13WalkDupLinks: blocks that link to the same child more than once ([X, Y, X]).
+func HarnessC13WalkDupLinks() { zzvRunWalk(verifrt.Param("N", 4), zzvParamFeatures()) }
